@@ -23,6 +23,12 @@ def run_corpus(ctx: "common.Ctx", mod: object, prop: str) -> None:
     d = os.path.join(os.path.dirname(os.path.dirname(os.path.abspath(__file__))), "corpus", prop)
     if not os.path.isdir(d):
         return
+    # the replays talk to the compiled model driver: build it first (on a fresh checkout nothing is built yet); when
+    # it cannot be built the property's own run reports the broken build, and the corpus is skipped, not failed
+    ok, _ = common.LeanSide.build(["o2pdriver"])
+    if not ok:
+        ctx.tick("corpus_skipped_driver_not_built")
+        return
     for fn in sorted(os.listdir(d)):
         if not fn.endswith(".json"):
             continue
